@@ -86,6 +86,39 @@ func init() {
 			return "ok:" + hx(buf.Bytes())
 		}))
 	}
+	// direct predicate for the documented rule "tables with nil data are skipped": writing a map gives
+	// the same bytes (or the same refusal) as writing the map without its nil entries
+	ops["header.nilequiv"] = func(f Fields) string {
+		return canonPanic(guard(func() string {
+			wr := func(m map[string][]byte) string {
+				var buf bytes.Buffer
+				_, err := header.Write(&buf, uint32(f.Int("scaler")), m)
+				if err != nil {
+					return "err:" + err.Error()
+				}
+				return "ok:" + hx(buf.Bytes())
+			}
+			full := parseTabs(f)
+			a := wr(full)
+			stripped := map[string][]byte{}
+			for k, v := range parseTabs(f) {
+				if v != nil {
+					stripped[k] = v
+				}
+			}
+			b := wr(stripped)
+			if a != b {
+				if len(a) > 60 {
+					a = a[:60]
+				}
+				if len(b) > 60 {
+					b = b[:60]
+				}
+				return "differs:with-nil=" + strings.ReplaceAll(a, " ", "_") + ":without=" + strings.ReplaceAll(b, " ", "_")
+			}
+			return "same"
+		}))
+	}
 	ops["header.tables"] = func(f Fields) string {
 		return canonPanic(guard(func() string {
 			var buf bytes.Buffer
@@ -346,6 +379,12 @@ func headerCase(c *Ctx, sc uint32, tabs map[string][]byte, inDomain bool) {
 		c.Stat("head", "with")
 	} else {
 		c.Stat("head", "without")
+	}
+	for _, d := range tabs {
+		if d == nil {
+			c.Case(Direct, "header.nilequiv", args, nontriv)
+			break
+		}
 	}
 	if !inDomain {
 		c.Stat("domain", "outside")
